@@ -88,7 +88,7 @@ theorem datum_shape : DatumShape :=
 def DispatchShape : Prop :=
     Dispatch.runtime_New = "if store == nil {return nil, ErrNeedsStore}; if wg == nil {return nil, ErrNeedsWaitgroup}; make(chan struct{}); defer close(initDone); if err = r.SetOption(options...); err != nil {return nil, err}; if r.c, err = compiler.New(r.cOpts...); err != nil {return nil, err}; wg.Add(1); defer func {go {defer wg.Done(); <-initDone; r.wg.Wait()}}(); r.wg.Add(1); go {defer r.wg.Done(); <-initDone; for range lines {LineCount.Add(1); r.handleMu.RLock(); for range r.handles {r.handles[prog].lines <-}; r.handleMu.RUnlock()}; close(r.signalQuit); r.handleMu.Lock(); for range r.handles {close(r.handles[prog].lines); delete(r.handles, prog)}; r.handleMu.Unlock()}; if r.programPath == \"\" {return r, nil}; r.wg.Add(1); go {defer r.wg.Done(); <-initDone; if r.programPath == \"\" {return }; make(chan os.Signal, 1); signal.Notify(n, syscall.SIGHUP); defer signal.Stop(n); for  {select {case <-r.signalQuit: {return } case <-n: {if err := r.LoadAllPrograms(); err != nil {}}}}}; if err := r.LoadAllPrograms(); err != nil {return nil, err}; return r, nil" ∧
     Dispatch.tailer_New = "if lines == nil {return nil, ErrNoLinesChannel}; if wg == nil {return nil, ErrNeedsWaitgroup}; t.ctx, t.cancel = context.WithCancel(ctx); defer close(t.initDone); if err := t.SetOption(options...); err != nil {return nil, err}; for range t.logPatterns {if err := t.AddPattern(p); err != nil {return nil, err}}; wg.Add(1); go {defer wg.Done(); <-t.initDone; t.wg.Wait(); t.cancel()}; wg.Add(1); go {defer wg.Done(); <-t.initDone; <-t.ctx.Done(); t.wg.Wait(); close(t.lines)}; return t, nil" ∧
-    Dispatch.tailer_AddPattern = "url.Parse(pattern); if err != nil {return err}; switch u.Scheme {case default: {} case \"unix\", \"unixgram\", \"tcp\", \"udp\": {return t.TailPath(path)} case \"\", \"file\": {}}; if logstream.IsStdinPattern(pattern) {return t.TailPath(pattern)}; filepath.Abs(path); if err != nil {return err}; t.globPatternsMu.Lock(); t.globPatterns[path] = struct{}{}; t.globPatternsMu.Unlock(); t.pollLogPattern(path); return nil" ∧
+    Dispatch.tailer_AddPattern = "url.Parse(pattern); if err != nil {}; switch u.Scheme {case default: {} case \"unix\", \"unixgram\", \"tcp\", \"udp\": {return t.TailPath(path)} case \"\", \"file\": {}}; if logstream.IsStdinPattern(pattern) {return t.TailPath(pattern)}; filepath.Abs(path); if err != nil {return err}; t.globPatternsMu.Lock(); t.globPatterns[path] = struct{}{}; t.globPatternsMu.Unlock(); t.pollLogPattern(path); return nil" ∧
     Dispatch.server_Run = "m.wg.Wait(); m.cancel(); if m.compileOnly {return nil}; return nil" ∧
     Dispatch.dgramConn_Read = "d.ReadFrom(p); return "
 theorem dispatch_shape : DispatchShape :=
@@ -114,7 +114,7 @@ def TextShape : Prop :=
     Text.quote = "return \"\\\"\" + strings.ReplaceAll(s, \"\\\"\", \"\\\\\\\"\") + \"\\\"\"" ∧
     Text.precedence = "switch v := n.(type) {case *ast.ConvExpr: {return precedence(v.N)} case *ast.BinaryExpr: {switch v.Op {case ASSIGN, ADD_ASSIGN: {return precAssign} case AND, OR, MATCH, NOT_MATCH: {return precLogical} case BITAND, BITOR, XOR: {return precBitwise} case LT, GT, LE, GE, EQ, NE: {return precRel} case SHL, SHR: {return precShift} case PLUS, MINUS: {return precAdditive} case default: {return precMultiplicative}}} case *ast.UnaryExpr: {switch v.Op {case NOT: {return precUnary} case INC, DEC: {return precPostfix} case default: {return precedence(v.Expr)}}} case *ast.PatternExpr: {return precedence(v.Expr)}}; return precPrimary" ∧
     Text.lhsNeedsParens = "switch op {case MATCH, NOT_MATCH: {return precedence(lhs) < precPrimary} case ASSIGN, ADD_ASSIGN: {return precedence(lhs) < precUnary}}; if _, isPattern := lhs.(*ast.PatternLit); isPattern || isConcat(lhs) {return false}; return precedence(lhs) < opPrecedence(op)" ∧
-    Text.rhsNeedsParens = "switch op {case MATCH, NOT_MATCH: {if _, isPattern := rhs.(*ast.PatternExpr); isPattern {return false}; return precedence(rhs) < precPrimary} case ASSIGN, ADD_ASSIGN: {return precedence(rhs) < precLogical}}; if _, isPattern := rhs.(*ast.PatternLit); isPattern {return false}; return precedence(rhs) <= opPrecedence(op)" ∧
+    Text.rhsNeedsParens = "switch op {case MATCH, NOT_MATCH: {if p, isPattern := rhs.(*ast.PatternExpr); isPattern {return !isPatternConcat(p.Expr) && precedence(p.Expr) < precPrimary}; return precedence(rhs) < precPrimary} case ASSIGN, ADD_ASSIGN: {return precedence(rhs) < precLogical}}; if _, isPattern := rhs.(*ast.PatternLit); isPattern {return false}; return precedence(rhs) <= opPrecedence(op)" ∧
     Text.unparser_walkOperand = "if parens {u.emit(\"(\")}; ast.Walk(u, n); if parens {u.emit(\")\")}" ∧
     Text.mfmt_main = "flag.Parse(); if *prog == \"\" {}; os.OpenFile(*prog, os.O_RDWR, 0); if err != nil {}; parser.Parse(*prog, f); if err != nil {}; checker.Check(ast, 0, 0); if err != nil {}; up.Unparse(ast); if *write {if err := f.Truncate(0); err != nil {}; if _, err := f.Seek(0, io.SeekStart); err != nil {}; if _, err := f.WriteString(out); err != nil {}} else {fmt.Print(out)}"
 theorem text_shape : TextShape :=
@@ -480,12 +480,13 @@ def F_parser_unparserShape : Prop :=
     F_parser_unparser.f_precedence = "switch v := n.(type) {case *ast.ConvExpr: {return precedence(v.N)} case *ast.BinaryExpr: {switch v.Op {case ASSIGN, ADD_ASSIGN: {return precAssign} case AND, OR, MATCH, NOT_MATCH: {return precLogical} case BITAND, BITOR, XOR: {return precBitwise} case LT, GT, LE, GE, EQ, NE: {return precRel} case SHL, SHR: {return precShift} case PLUS, MINUS: {return precAdditive} case default: {return precMultiplicative}}} case *ast.UnaryExpr: {switch v.Op {case NOT: {return precUnary} case INC, DEC: {return precPostfix} case default: {return precedence(v.Expr)}}} case *ast.PatternExpr: {return precedence(v.Expr)}}; return precPrimary" ∧
     F_parser_unparser.f_opPrecedence = "return precedence(&ast.BinaryExpr{Op: op})" ∧
     F_parser_unparser.f_lhsNeedsParens = "switch op {case MATCH, NOT_MATCH: {return precedence(lhs) < precPrimary} case ASSIGN, ADD_ASSIGN: {return precedence(lhs) < precUnary}}; if _, isPattern := lhs.(*ast.PatternLit); isPattern || isConcat(lhs) {return false}; return precedence(lhs) < opPrecedence(op)" ∧
-    F_parser_unparser.f_rhsNeedsParens = "switch op {case MATCH, NOT_MATCH: {if _, isPattern := rhs.(*ast.PatternExpr); isPattern {return false}; return precedence(rhs) < precPrimary} case ASSIGN, ADD_ASSIGN: {return precedence(rhs) < precLogical}}; if _, isPattern := rhs.(*ast.PatternLit); isPattern {return false}; return precedence(rhs) <= opPrecedence(op)" ∧
+    F_parser_unparser.f_rhsNeedsParens = "switch op {case MATCH, NOT_MATCH: {if p, isPattern := rhs.(*ast.PatternExpr); isPattern {return !isPatternConcat(p.Expr) && precedence(p.Expr) < precPrimary}; return precedence(rhs) < precPrimary} case ASSIGN, ADD_ASSIGN: {return precedence(rhs) < precLogical}}; if _, isPattern := rhs.(*ast.PatternLit); isPattern {return false}; return precedence(rhs) <= opPrecedence(op)" ∧
+    F_parser_unparser.f_isPatternConcat = "switch v := n.(type) {case *ast.PatternLit: {return true} case *ast.BinaryExpr: {if v.Op != PLUS {return false}; switch v.RHS.(type) {case *ast.PatternLit, *ast.IDTerm: {return isPatternConcat(v.LHS)}}}}; return false" ∧
     F_parser_unparser.f_isConcat = "if !ok || b.Op != PLUS {return false}; if _, isPattern := b.RHS.(*ast.PatternLit); isPattern {return true}; return isConcat(b.LHS)" ∧
     F_parser_unparser.f_Unparser_walkOperand = "if parens {u.emit(\"(\")}; ast.Walk(u, n); if parens {u.emit(\")\")}" ∧
     F_parser_unparser.f_Unparser_Unparse = "ast.Walk(u, n); return u.output.String()"
 theorem f_parser_unparser_shape : F_parser_unparserShape :=
-  ⟨rfl, rfl, rfl, rfl, rfl, rfl, rfl, rfl, rfl, rfl, rfl, rfl, rfl, rfl, rfl⟩
+  ⟨rfl, rfl, rfl, rfl, rfl, rfl, rfl, rfl, rfl, rfl, rfl, rfl, rfl, rfl, rfl, rfl⟩
 
 /-- F_symbol_symtab -/
 def F_symbol_symtabShape : Prop :=
@@ -632,7 +633,7 @@ def F_tailer_tailShape : Prop :=
     F_tailer_tail.f_logstreamPollWaker_apply = "t.logstreamPollWaker = opt.Waker; return nil" ∧
     F_tailer_tail.f_New = "if lines == nil {return nil, ErrNoLinesChannel}; if wg == nil {return nil, ErrNeedsWaitgroup}; t.ctx, t.cancel = context.WithCancel(ctx); defer close(t.initDone); if err := t.SetOption(options...); err != nil {return nil, err}; for range t.logPatterns {if err := t.AddPattern(p); err != nil {return nil, err}}; wg.Add(1); go {defer wg.Done(); <-t.initDone; t.wg.Wait(); t.cancel()}; wg.Add(1); go {defer wg.Done(); <-t.initDone; <-t.ctx.Done(); t.wg.Wait(); close(t.lines)}; return t, nil" ∧
     F_tailer_tail.f_Tailer_SetOption = "for range options {if option == nil {return ErrNilOption}; if err := option.apply(t); err != nil {return err}}; return nil" ∧
-    F_tailer_tail.f_Tailer_AddPattern = "url.Parse(pattern); if err != nil {return err}; switch u.Scheme {case default: {} case \"unix\", \"unixgram\", \"tcp\", \"udp\": {return t.TailPath(path)} case \"\", \"file\": {}}; if logstream.IsStdinPattern(pattern) {return t.TailPath(pattern)}; filepath.Abs(path); if err != nil {return err}; t.globPatternsMu.Lock(); t.globPatterns[path] = struct{}{}; t.globPatternsMu.Unlock(); t.pollLogPattern(path); return nil" ∧
+    F_tailer_tail.f_Tailer_AddPattern = "url.Parse(pattern); if err != nil {}; switch u.Scheme {case default: {} case \"unix\", \"unixgram\", \"tcp\", \"udp\": {return t.TailPath(path)} case \"\", \"file\": {}}; if logstream.IsStdinPattern(pattern) {return t.TailPath(pattern)}; filepath.Abs(path); if err != nil {return err}; t.globPatternsMu.Lock(); t.globPatterns[path] = struct{}{}; t.globPatternsMu.Unlock(); t.pollLogPattern(path); return nil" ∧
     F_tailer_tail.f_Tailer_Ignore = "filepath.Abs(pathname); if err != nil {return true}; os.Stat(absPath); if err != nil {return true}; if fi.Mode().IsDir() {return true}; return t.ignoreRegexPattern != nil && t.ignoreRegexPattern.MatchString(fi.Name())" ∧
     F_tailer_tail.f_Tailer_SetIgnorePattern = "if len(pattern) == 0 {return nil}; regexp.Compile(pattern); if err != nil {fmt.Printf(\"error: %v\\n\", err); return err}; t.ignoreRegexPattern = ignoreRegexPattern; return nil" ∧
     F_tailer_tail.f_Tailer_TailPath = "t.logstreamsMu.Lock(); defer t.logstreamsMu.Unlock(); if _, ok := t.logstreams[pathname]; ok {return nil}; logstream.New(t.ctx, &t.wg, t.logstreamPollWaker, pathname, t.oneShot); if err != nil {return err}; t.logstreams[pathname] = l; t.wg.Add(1); go {defer t.wg.Done(); for range l.Lines() {t.lines <-}; t.logstreamsMu.Lock(); if !t.oneShot {delete(t.logstreams, pathname)}; logCount.Add(-1); t.logstreamsMu.Unlock()}; logCount.Add(1); return nil" ∧
@@ -731,7 +732,7 @@ def CodegenAfterShape : Prop :=
     CodegenAfter.switch = "switch n := node.(type)" ∧
     CodegenAfter.case_BuiltinExpr = "if n.Args != nil {len(n.Args.(*ast.ExprList).Children)}; switch n.Name {case \"bool\": {} case \"int\", \"float\", \"string\": {if arglen > 1 {c.errorf(n.Pos(), \"too many arguments to builtin %q: %#v\", n.Name, n); return n}; if err := c.emitConversion(n, n.Args.(*ast.ExprList).Children[0].Type(), n.Type()); err != nil {c.errorf(n.Pos(), \"%s on node %v\", err.Error(), n); return n}} case \"subst\": {if types.Equals(n.Args.(*ast.ExprList).Children[0].Type(), types.Pattern) {c.emit(n, code.Push, index); c.emit(n, code.Rsubst, arglen)} else {c.emit(n, code.Subst, arglen)}} case default: {c.emit(n, builtin[n.Name], arglen)}}" ∧
     CodegenAfter.case_UnaryExpr = "switch n.Op {case parser.INC: {c.emit(n, code.Inc, nil)} case parser.DEC: {c.emit(n, code.Dec, nil)} case parser.NOT: {c.emit(n, code.Neg, nil)} case parser.MATCH: {c.emit(n, code.Match, index)}}" ∧
-    CodegenAfter.case_BinaryExpr = "switch n.Op {case parser.LT, parser.GT, parser.LE, parser.GE, parser.EQ, parser.NE: {c.newLabel(); c.newLabel(); switch n.Op {case parser.LT: {} case parser.GT: {} case parser.LE: {} case parser.GE: {} case parser.EQ: {} case parser.NE: {}}; if types.Equals(n.LHS.Type(), n.RHS.Type()) {switch n.LHS.Type() {case types.Float: {} case types.Int: {} case types.String: {} case default: {}}}; c.emit(n, cmpOp, cmpArg); c.emit(n, jumpOp, lFail); c.emit(n, code.Push, true); c.emit(n, code.Jmp, lEnd); c.setLabel(lFail); c.emit(n, code.Push, false); c.setLabel(lEnd)} case parser.ADD_ASSIGN: {switch  {case types.Equals(n.Type(), types.Int): {c.emit(n, code.Inc, 0)} case types.Equals(n.Type(), types.Float), types.Equals(n.Type(), types.String): {getOpcodeForType(parser.PLUS, n.Type()); if err != nil {c.errorf(n.Pos(), \"%s\", err); return n}; c.emit(n, opcode, nil); getOpcodeForType(parser.ASSIGN, n.Type()); if err != nil {c.errorf(n.Pos(), \"%s\", err); return n}; c.emit(n, opcode, nil)} case default: {c.errorf(n.Pos(), \"invalid type for add-assignment: %v\", n.Type()); return n}}} case parser.PLUS, parser.MINUS, parser.MUL, parser.DIV, parser.MOD, parser.POW, parser.ASSIGN: {getOpcodeForType(n.Op, n.Type()); if err != nil {c.errorf(n.Pos(), \"%s\", err); return n}; c.emit(n, opcode, nil)} case parser.BITAND: {c.emit(n, code.And, nil)} case parser.BITOR: {c.emit(n, code.Or, nil)} case parser.XOR: {c.emit(n, code.Xor, nil)} case parser.SHL: {c.emit(n, code.Shl, nil)} case parser.SHR: {c.emit(n, code.Shr, nil)} case parser.MATCH, parser.NOT_MATCH: {switch v := n.RHS.(type) {case *ast.PatternExpr: {c.emit(n, code.Smatch, index)} case default: {c.errorf(n.Pos(), \"unexpected rhs expression for match %#v\", n.RHS); return n}}; if n.Op == parser.NOT_MATCH {c.emit(n, code.Not, nil)}} case default: {c.errorf(n.Pos(), \"unexpected op %v\", n.Op)}}" ∧
+    CodegenAfter.case_BinaryExpr = "switch n.Op {case parser.LT, parser.GT, parser.LE, parser.GE, parser.EQ, parser.NE: {c.newLabel(); c.newLabel(); switch n.Op {case parser.LT: {} case parser.GT: {} case parser.LE: {} case parser.GE: {} case parser.EQ: {} case parser.NE: {}}; if types.Equals(n.LHS.Type(), n.RHS.Type()) {switch n.LHS.Type() {case types.Float: {} case types.Int: {} case types.String: {} case default: {if types.Equals(n.LHS.Type(), types.String) {}}}}; c.emit(n, cmpOp, cmpArg); c.emit(n, jumpOp, lFail); c.emit(n, code.Push, true); c.emit(n, code.Jmp, lEnd); c.setLabel(lFail); c.emit(n, code.Push, false); c.setLabel(lEnd)} case parser.ADD_ASSIGN: {switch  {case types.Equals(n.Type(), types.Int): {c.emit(n, code.Inc, 0)} case types.Equals(n.Type(), types.Float), types.Equals(n.Type(), types.String): {getOpcodeForType(parser.PLUS, n.Type()); if err != nil {c.errorf(n.Pos(), \"%s\", err); return n}; c.emit(n, opcode, nil); getOpcodeForType(parser.ASSIGN, n.Type()); if err != nil {c.errorf(n.Pos(), \"%s\", err); return n}; c.emit(n, opcode, nil)} case default: {c.errorf(n.Pos(), \"invalid type for add-assignment: %v\", n.Type()); return n}}} case parser.PLUS, parser.MINUS, parser.MUL, parser.DIV, parser.MOD, parser.POW, parser.ASSIGN: {getOpcodeForType(n.Op, n.Type()); if err != nil {c.errorf(n.Pos(), \"%s\", err); return n}; c.emit(n, opcode, nil)} case parser.BITAND: {c.emit(n, code.And, nil)} case parser.BITOR: {c.emit(n, code.Or, nil)} case parser.XOR: {c.emit(n, code.Xor, nil)} case parser.SHL: {c.emit(n, code.Shl, nil)} case parser.SHR: {c.emit(n, code.Shr, nil)} case parser.MATCH, parser.NOT_MATCH: {switch v := n.RHS.(type) {case *ast.PatternExpr: {c.emit(n, code.Smatch, index)} case default: {c.errorf(n.Pos(), \"unexpected rhs expression for match %#v\", n.RHS); return n}}; if n.Op == parser.NOT_MATCH {c.emit(n, code.Not, nil)}} case default: {c.errorf(n.Pos(), \"unexpected op %v\", n.Op)}}" ∧
     CodegenAfter.case_ConvExpr = "if err := c.emitConversion(n, n.N.Type(), n.Type()); err != nil {c.errorf(n.Pos(), \"internal error: %s on node %v\", err.Error(), n); return n}" ∧
     CodegenAfter.after = "return node"
 theorem codegenAfter_shape : CodegenAfterShape :=
@@ -764,8 +765,8 @@ def CheckerAfterShape : Prop :=
     CheckerAfter.case_DecoStmt = "c.scope = n.Scope.Parent; return n" ∧
     CheckerAfter.case_NextStmt = "if last < 0 {c.errors.Add(n.Pos(), \"Can't use `next' outside of a decorator.\"); return n}; if len(decoScope.Symbols) > 0 {c.errors.Add(n.Pos(), \"Can't use `next' statement twice in a decorator.\"); return n}; decoScope.CopyFrom(c.scope); return n" ∧
     CheckerAfter.case_DecoDecl = "if len(decoScope.Symbols) == 0 {c.errors.Add(n.Pos(), fmt.Sprintf(\"No symbols found in decorator `@%s'.\\n\\tTry adding a `next' statement inside the `{}' block.\", n.Name))}; n.Scope = decoScope; c.decoScopes = c.decoScopes[:last]; return n" ∧
-    CheckerAfter.case_BinaryExpr = "n.LHS.Type(); if types.IsTypeError(lT) {n.SetType(lT); return n}; n.RHS.Type(); if types.IsTypeError(rT) {n.SetType(rT); return n}; switch n.Op {case parser.PLUS, parser.MATCH, parser.NOT_MATCH, parser.AND, parser.OR: {} case default: {if types.Equals(lT, types.Pattern) || types.Equals(rT, types.Pattern) {c.errors.Add(n.Pos(), fmt.Sprintf(\"Can't apply %s to a pattern.\\n\\tA pattern can be concatenated with `+', matched with `=~', or combined with `&&' and `||'.\", parser.Kind(n.Op))); n.SetType(types.Error); return n}}}; if (n.Op == parser.MATCH || n.Op == parser.NOT_MATCH) && types.Equals(lT, types.None) {c.errors.Add(n.LHS.Pos(), fmt.Sprintf(\"Can't apply %s to an expression that has no value.\", parser.Kind(n.Op))); n.SetType(types.Error); return n}; switch n.Op {case parser.DIV, parser.MOD, parser.MUL, parser.MINUS, parser.PLUS, parser.POW: {types.LeastUpperBound(lT, rT); if types.AsTypeError(rType, &err) {if goerrors.Is(err, types.ErrTypeMismatch) {c.errors.Add(n.Pos(), fmt.Sprintf(\"type mismatch: can't apply %s to LHS of type %q with RHS of type %q.\", parser.Kind(n.Op), lT, rT))} else {c.errors.Add(n.Pos(), err.Error())}; n.SetType(err); return n}; types.Function(lT, rT, rType); types.NewVariable(); types.Function(t, t, t); types.Unify(wantType, gotType); if types.AsTypeError(uType, &err) {c.errors.Add(n.Pos(), err.Error()); n.SetType(err); return n}; if !types.Equals(rType, lT) {conv.SetType(rType); n.LHS = conv}; if !types.Equals(rType, rT) {conv.SetType(rType); n.RHS = conv}; if n.Op == parser.DIV || n.Op == parser.MOD {if i, ok := n.RHS.(*ast.IntLit); ok {if i.I == 0 {c.errors.Add(n.Pos(), \"Can't divide by zero.\"); n.SetType(types.Error); return n}}}} case parser.SHL, parser.SHR, parser.BITAND, parser.BITOR, parser.XOR, parser.NOT: {types.Function(rType, rType, rType); types.Function(lT, rT, types.NewVariable()); types.Unify(wantType, gotType); if types.AsTypeError(uType, &err) {if goerrors.Is(err, types.ErrTypeMismatch) {c.errors.Add(n.Pos(), fmt.Sprintf(\"Integer types expected for bitwise %s, got %s and %s\", parser.Kind(n.Op), lT, rT))} else {c.errors.Add(n.Pos(), err.Error())}; n.SetType(err); return n}} case parser.AND, parser.OR: {if v, ok := n.LHS.(*ast.PatternExpr); ok {match.SetType(types.Bool); n.LHS = match}; if v, ok := n.RHS.(*ast.PatternExpr); ok {match.SetType(types.Bool); n.RHS = match}; types.Function(rType, rType, rType); types.Function(lT, rT, types.NewVariable()); types.Unify(wantType, gotType); if types.AsTypeError(uType, &err) {if goerrors.Is(err, types.ErrTypeMismatch) {c.errors.Add(n.Pos(), fmt.Sprintf(\"Boolean types expected for logical %s, got %s and %s\", parser.Kind(n.Op), lT, rT))} else {c.errors.Add(n.Pos(), err.Error())}; n.SetType(err); return n}} case parser.LT, parser.GT, parser.LE, parser.GE, parser.EQ, parser.NE: {types.LeastUpperBound(lT, rT); if types.AsTypeError(t, &err) {if goerrors.Is(err, types.ErrTypeMismatch) {c.errors.Add(n.Pos(), fmt.Sprintf(\"type mismatch: can't apply %s to LHS of type %q with RHS of type %q.\", parser.Kind(n.Op), lT, rT))} else {c.errors.Add(n.Pos(), err.Error())}; n.SetType(err); return n}; types.Function(lT, rT, rType); types.Function(t, t, types.Bool); types.Unify(wantType, gotType); if types.AsTypeError(uType, &err) {c.errors.Add(n.Pos(), err.Error()); n.SetType(err); return n}; if !types.Equals(t, lT) {conv.SetType(t); n.LHS = conv}; if !types.Equals(t, rT) {conv.SetType(t); n.RHS = conv}} case parser.ASSIGN, parser.ADD_ASSIGN: {types.LeastUpperBound(lT, rT); types.Unify(rType, t); if types.AsTypeError(uType, &err) {c.errors.Add(n.Pos(), err.Error()); n.SetType(err); return n}; if n.Op == parser.ADD_ASSIGN && c.isHistogram(n.LHS) {c.errors.Add(n.Pos(), \"Can't apply ADD_ASSIGN to a histogram; assign the observed value to it instead.\"); n.SetType(types.Error); return n}; switch v := n.LHS.(type) {case *ast.IDTerm: {v.Lvalue = true} case *ast.IndexedExpr: {v.LHS.(*ast.IDTerm).Lvalue = true} case default: {c.errors.Add(n.LHS.Pos(), \"Can't assign to expression on left; expecting a variable here.\"); n.SetType(types.Error); return n}}} case parser.MATCH, parser.NOT_MATCH: {types.Function(types.NewVariable(), types.Pattern, rType); types.Function(lT, rT, types.NewVariable()); types.Unify(wantType, gotType); if types.AsTypeError(uType, &err) {if goerrors.Is(err, types.ErrTypeMismatch) {c.errors.Add(n.Pos(), fmt.Sprintf(\"Parameter to %s has a %s.\", parser.Kind(n.Op), err))} else {c.errors.Add(n.Pos(), err.Error())}; n.SetType(err); return n}; if !types.Equals(rT, types.Pattern) {n.RHS = ast.Walk(c, &ast.PatternExpr{Expr: n.RHS})}} case default: {c.errors.Add(n.Pos(), fmt.Sprintf(\"Unexpected operator %s (%v) in node %#v\", parser.Kind(n.Op), n.Op, n)); n.SetType(types.InternalError); return n}}; n.SetType(rType); return n" ∧
-    CheckerAfter.case_UnaryExpr = "if types.IsTypeError(n.Expr.Type()) {n.SetType(n.Expr.Type()); return n}; switch n.Op {case parser.NOT: {types.Function(types.Int, rType); types.Function(n.Expr.Type(), types.NewVariable()); types.Unify(wantType, gotType); if types.AsTypeError(uType, &err) {c.errors.Add(n.Expr.Pos(), fmt.Sprintf(\"%s for `~' operator.\", err)); n.SetType(err); return n}} case parser.INC, parser.DEC: {switch v := n.Expr.(type) {case *ast.IDTerm: {v.Lvalue = true} case *ast.IndexedExpr: {v.LHS.(*ast.IDTerm).Lvalue = true} case default: {c.errors.Add(n.Expr.Pos(), \"Can't assign to expression; expecting a variable here.\"); n.SetType(types.Error); return n}}; if c.isHistogram(n.Expr) {c.errors.Add(n.Pos(), fmt.Sprintf(\"Can't apply %s to a histogram; assign the observed value to it instead.\", parser.Kind(n.Op))); n.SetType(types.Error); return n}; types.NewVariable(); types.Function(types.Int, types.Int); types.Function(n.Expr.Type(), rType); types.Unify(wantType, gotType); if types.AsTypeError(uType, &err) {c.errors.Add(n.Pos(), err.Error()); n.SetType(err); return n}; if !ok {c.errors.Add(n.Pos(), fmt.Sprintf(\"internal error: unexpected type for Expr %v\", uType)); n.SetType(types.InternalError); return n}; if !types.OccursIn(types.Int, []types.Type{uTypeOperator.Args[0]}) {c.errors.Add(n.Expr.Pos(), fmt.Sprintf(\"type mismatch: expecting an Int for %s, not %v.\", parser.Kind(n.Op), n.Expr.Type())); n.SetType(types.Error); return n}} case parser.MATCH: {types.Function(types.Pattern, rType); types.Function(n.Expr.Type(), types.NewVariable()); types.Unify(wantType, gotType); if types.AsTypeError(uType, &err) {if goerrors.Is(err, types.ErrTypeMismatch) {c.errors.Add(n.Pos(), fmt.Sprintf(\"type mismatch: Unary MATCH expects Pattern, received %s\", n.Expr.Type()))} else {c.errors.Add(n.Pos(), err.Error())}; n.SetType(err); return n}} case default: {c.errors.Add(n.Pos(), fmt.Sprintf(\"unknown unary op %s in expr %#v\", parser.Kind(n.Op), n)); n.SetType(types.InternalError); return n}}; n.SetType(rType); return n" ∧
+    CheckerAfter.case_BinaryExpr = "n.LHS.Type(); if types.IsTypeError(lT) {n.SetType(lT); return n}; n.RHS.Type(); if types.IsTypeError(rT) {n.SetType(rT); return n}; switch n.Op {case parser.PLUS, parser.MATCH, parser.NOT_MATCH, parser.AND, parser.OR: {} case default: {if types.Equals(lT, types.Pattern) || types.Equals(rT, types.Pattern) {c.errors.Add(n.Pos(), fmt.Sprintf(\"Can't apply %s to a pattern.\\n\\tA pattern can be concatenated with `+', matched with `=~', or combined with `&&' and `||'.\", parser.Kind(n.Op))); n.SetType(types.Error); return n}}}; if (n.Op == parser.MATCH || n.Op == parser.NOT_MATCH) && types.Equals(lT, types.None) {c.errors.Add(n.LHS.Pos(), fmt.Sprintf(\"Can't apply %s to an expression that has no value.\", parser.Kind(n.Op))); n.SetType(types.Error); return n}; if (n.Op == parser.MATCH || n.Op == parser.NOT_MATCH) && types.Equals(lT, types.Pattern) {c.errors.Add(n.LHS.Pos(), fmt.Sprintf(\"Can't apply %s to a pattern; expecting the text to match on its left.\", parser.Kind(n.Op))); n.SetType(types.Error); return n}; switch n.Op {case parser.DIV, parser.MOD, parser.MUL, parser.MINUS, parser.PLUS, parser.POW: {types.LeastUpperBound(lT, rT); if types.AsTypeError(rType, &err) {if goerrors.Is(err, types.ErrTypeMismatch) {c.errors.Add(n.Pos(), fmt.Sprintf(\"type mismatch: can't apply %s to LHS of type %q with RHS of type %q.\", parser.Kind(n.Op), lT, rT))} else {c.errors.Add(n.Pos(), err.Error())}; n.SetType(err); return n}; types.Function(lT, rT, rType); types.NewVariable(); types.Function(t, t, t); types.Unify(wantType, gotType); if types.AsTypeError(uType, &err) {c.errors.Add(n.Pos(), err.Error()); n.SetType(err); return n}; if !types.Equals(rType, lT) {conv.SetType(rType); n.LHS = conv}; if !types.Equals(rType, rT) {conv.SetType(rType); n.RHS = conv}; if n.Op == parser.DIV || n.Op == parser.MOD {if i, ok := n.RHS.(*ast.IntLit); ok {if i.I == 0 {c.errors.Add(n.Pos(), \"Can't divide by zero.\"); n.SetType(types.Error); return n}}}} case parser.SHL, parser.SHR, parser.BITAND, parser.BITOR, parser.XOR, parser.NOT: {types.Function(rType, rType, rType); types.Function(lT, rT, types.NewVariable()); types.Unify(wantType, gotType); if types.AsTypeError(uType, &err) {if goerrors.Is(err, types.ErrTypeMismatch) {c.errors.Add(n.Pos(), fmt.Sprintf(\"Integer types expected for bitwise %s, got %s and %s\", parser.Kind(n.Op), lT, rT))} else {c.errors.Add(n.Pos(), err.Error())}; n.SetType(err); return n}} case parser.AND, parser.OR: {if v, ok := n.LHS.(*ast.PatternExpr); ok {match.SetType(types.Bool); n.LHS = match}; if v, ok := n.RHS.(*ast.PatternExpr); ok {match.SetType(types.Bool); n.RHS = match}; types.Function(rType, rType, rType); types.Function(lT, rT, types.NewVariable()); types.Unify(wantType, gotType); if types.AsTypeError(uType, &err) {if goerrors.Is(err, types.ErrTypeMismatch) {c.errors.Add(n.Pos(), fmt.Sprintf(\"Boolean types expected for logical %s, got %s and %s\", parser.Kind(n.Op), lT, rT))} else {c.errors.Add(n.Pos(), err.Error())}; n.SetType(err); return n}} case parser.LT, parser.GT, parser.LE, parser.GE, parser.EQ, parser.NE: {types.LeastUpperBound(lT, rT); if types.AsTypeError(t, &err) {if goerrors.Is(err, types.ErrTypeMismatch) {c.errors.Add(n.Pos(), fmt.Sprintf(\"type mismatch: can't apply %s to LHS of type %q with RHS of type %q.\", parser.Kind(n.Op), lT, rT))} else {c.errors.Add(n.Pos(), err.Error())}; n.SetType(err); return n}; types.Function(lT, rT, rType); types.Function(t, t, types.Bool); types.Unify(wantType, gotType); if types.AsTypeError(uType, &err) {c.errors.Add(n.Pos(), err.Error()); n.SetType(err); return n}; if !types.Equals(t, lT) {conv.SetType(t); n.LHS = conv}; if !types.Equals(t, rT) {conv.SetType(t); n.RHS = conv}} case parser.ASSIGN, parser.ADD_ASSIGN: {types.LeastUpperBound(lT, rT); types.Unify(rType, t); if types.AsTypeError(uType, &err) {c.errors.Add(n.Pos(), err.Error()); n.SetType(err); return n}; if n.Op == parser.ADD_ASSIGN && c.isHistogram(n.LHS) {c.errors.Add(n.Pos(), \"Can't apply ADD_ASSIGN to a histogram; assign the observed value to it instead.\"); n.SetType(types.Error); return n}; switch v := n.LHS.(type) {case *ast.IDTerm: {v.Lvalue = true} case *ast.IndexedExpr: {v.LHS.(*ast.IDTerm).Lvalue = true} case default: {c.errors.Add(n.LHS.Pos(), \"Can't assign to expression on left; expecting a variable here.\"); n.SetType(types.Error); return n}}} case parser.MATCH, parser.NOT_MATCH: {types.Function(types.NewVariable(), types.Pattern, rType); types.Function(lT, rT, types.NewVariable()); types.Unify(wantType, gotType); if types.AsTypeError(uType, &err) {if goerrors.Is(err, types.ErrTypeMismatch) {c.errors.Add(n.Pos(), fmt.Sprintf(\"Parameter to %s has a %s.\", parser.Kind(n.Op), err))} else {c.errors.Add(n.Pos(), err.Error())}; n.SetType(err); return n}; if !types.Equals(rT, types.Pattern) {n.RHS = ast.Walk(c, &ast.PatternExpr{Expr: n.RHS})}} case default: {c.errors.Add(n.Pos(), fmt.Sprintf(\"Unexpected operator %s (%v) in node %#v\", parser.Kind(n.Op), n.Op, n)); n.SetType(types.InternalError); return n}}; n.SetType(rType); return n" ∧
+    CheckerAfter.case_UnaryExpr = "if types.IsTypeError(n.Expr.Type()) {n.SetType(n.Expr.Type()); return n}; switch n.Op {case parser.NOT: {if types.Equals(n.Expr.Type(), types.Pattern) {c.errors.Add(n.Expr.Pos(), \"Can't apply `~' to a pattern.\"); n.SetType(types.Error); return n}; types.Function(types.Int, rType); types.Function(n.Expr.Type(), types.NewVariable()); types.Unify(wantType, gotType); if types.AsTypeError(uType, &err) {c.errors.Add(n.Expr.Pos(), fmt.Sprintf(\"%s for `~' operator.\", err)); n.SetType(err); return n}} case parser.INC, parser.DEC: {switch v := n.Expr.(type) {case *ast.IDTerm: {v.Lvalue = true} case *ast.IndexedExpr: {v.LHS.(*ast.IDTerm).Lvalue = true} case default: {c.errors.Add(n.Expr.Pos(), \"Can't assign to expression; expecting a variable here.\"); n.SetType(types.Error); return n}}; if c.isHistogram(n.Expr) {c.errors.Add(n.Pos(), fmt.Sprintf(\"Can't apply %s to a histogram; assign the observed value to it instead.\", parser.Kind(n.Op))); n.SetType(types.Error); return n}; types.NewVariable(); types.Function(types.Int, types.Int); types.Function(n.Expr.Type(), rType); types.Unify(wantType, gotType); if types.AsTypeError(uType, &err) {c.errors.Add(n.Pos(), err.Error()); n.SetType(err); return n}; if !ok {c.errors.Add(n.Pos(), fmt.Sprintf(\"internal error: unexpected type for Expr %v\", uType)); n.SetType(types.InternalError); return n}; if !types.OccursIn(types.Int, []types.Type{uTypeOperator.Args[0]}) {c.errors.Add(n.Expr.Pos(), fmt.Sprintf(\"type mismatch: expecting an Int for %s, not %v.\", parser.Kind(n.Op), n.Expr.Type())); n.SetType(types.Error); return n}} case parser.MATCH: {types.Function(types.Pattern, rType); types.Function(n.Expr.Type(), types.NewVariable()); types.Unify(wantType, gotType); if types.AsTypeError(uType, &err) {if goerrors.Is(err, types.ErrTypeMismatch) {c.errors.Add(n.Pos(), fmt.Sprintf(\"type mismatch: Unary MATCH expects Pattern, received %s\", n.Expr.Type()))} else {c.errors.Add(n.Pos(), err.Error())}; n.SetType(err); return n}} case default: {c.errors.Add(n.Pos(), fmt.Sprintf(\"unknown unary op %s in expr %#v\", parser.Kind(n.Op), n)); n.SetType(types.InternalError); return n}}; n.SetType(rType); return n" ∧
     CheckerAfter.case_ExprList = "for range n.Children {if types.IsTypeError(arg.Type()) {n.SetType(arg.Type()); return n}; append(argTypes, arg.Type())}; n.SetType(types.Dimension(argTypes...)); return n" ∧
     CheckerAfter.case_IndexedExpr = "if !ok {return n.LHS}; for range exprList.Children {if types.IsTypeError(arg.Type()) {n.SetType(arg.Type()); return n}; append(argTypes, arg.Type())}; switch v := n.LHS.(type) {case *ast.IDTerm: {if v.Symbol == nil {n.SetType(types.Error); return n}; if types.Equals(types.Pattern, v.Type()) {return ast.Walk(c, &ast.PatternExpr{Expr: v})}; if !types.IsDimension(v.Type()) {if len(argTypes) > 0 {c.errors.Add(n.Pos(), \"Index taken on unindexable expression\"); n.SetType(types.Error)} else {n.SetType(v.Type())}; return n}} case default: {c.errors.Add(n.Pos(), \"Index taken on unindexable expression\"); n.SetType(types.Error); return n}}; for range argTypes {if types.Equals(t, types.Pattern) {c.errors.Add(exprList.Children[i].Pos(), \"Can't use a pattern as an index key.\"); n.SetType(types.Error); return n}; if types.Equals(t, types.None) {c.errors.Add(exprList.Children[i].Pos(), \"Can't use an expression that has no value as an index key.\"); n.SetType(types.Error); return n}}; types.NewVariable(); append(argTypes, rType); types.Dimension(argTypes); if !ok {c.errors.Add(n.Pos(), fmt.Sprintf(\"internal error: unexpected type on LHS %v\", n.LHS.Type())); n.SetType(types.InternalError); return n}; types.Unify(wantType, gotType); if types.AsTypeError(uType, &err) {switch  {case len(wantType.Args) > len(gotType.Args): {c.errors.Add(n.Pos(), fmt.Sprintf(\"Not enough keys for indexed expression: expecting %d, received %d\", len(wantType.Args)-1, len(gotType.Args)-1)); n.SetType(types.Error); return n} case len(wantType.Args) < len(gotType.Args): {c.errors.Add(n.Pos(), fmt.Sprintf(\"Too many keys for indexed expression: expecting %d, received %d.\", len(wantType.Args)-1, len(gotType.Args)-1))} case default: {c.errors.Add(n.Pos(), err.Error())}}; n.SetType(types.Error); return n}; if len(exprList.Children) == 0 {return n.LHS}; n.SetType(rType); return n" ∧
     CheckerAfter.case_BuiltinExpr = "if args, ok := n.Args.(*ast.ExprList); ok {for range args.Children {append(argTypes, arg.Type())}}; types.NewVariable(); append(argTypes, rType); types.Function(argTypes); types.FreshType(types.Builtins[n.Name]); types.Unify(wantType, gotType); if types.AsTypeError(uType, &err) {if goerrors.Is(err, types.ErrTypeMismatch) {c.errors.Add(n.Pos(), fmt.Sprintf(\"call to `%s': %s\", n.Name, err))} else {c.errors.Add(n.Pos(), err.Error())}; n.SetType(err); return n}; n.SetType(rType); if args, ok := n.Args.(*ast.ExprList); ok {for range args.Children {if types.Equals(arg.Type(), types.Pattern) && !(n.Name == \"subst\" && i == 0) {c.errors.Add(arg.Pos(), fmt.Sprintf(\"Can't use a pattern as argument %d of %s().\", i+1, n.Name)); n.SetType(types.Error); return n}; if types.Equals(arg.Type(), types.None) {c.errors.Add(arg.Pos(), fmt.Sprintf(\"Can't use an expression that has no value as argument %d of %s().\", i+1, n.Name)); n.SetType(types.Error); return n}}}; switch n.Name {case \"strptime\": {if !types.Equals(gotType.Args[1], types.String) {c.errors.Add(n.Args.(*ast.ExprList).Children[1].Pos(), fmt.Sprintf(\"Expecting a format string for argument 2 of strptime(), not %v.\", gotType.Args[1])); n.SetType(types.Error); return n}; if f, ok := n.Args.(*ast.ExprList).Children[1].(*ast.StringLit); ok {strings.ReplaceAll(strings.ReplaceAll(f.Text, \"_\", \"\"), \"Z\", \"+\"); time.Parse(f.Text, timeStr); if err != nil {c.errors.Add(f.Pos(), fmt.Sprintf(\"invalid time format string %q\\n\\tRefer to the documentation at https://golang.org/pkg/time/#pkg-constants for advice.\", f.Text)); n.SetType(types.Error); return n}} else {c.errors.Add(n.Pos(), \"Internal error: exprlist child is not string literal.\"); return n}} case \"subst\": {c.noRegexSymbols = false; if args := n.Args.(*ast.ExprList).Children; types.Equals(args[0].Type(), types.Pattern) {if _, ok := args[0].(*ast.PatternExpr); !ok {c.errors.Add(args[0].Pos(), \"Can't use this expression as the pattern argument of subst().\\n\\tTry a regular expression literal or a `const'-defined pattern fragment.\"); n.SetType(types.Error); return n}}; return n} case \"tolower\": {if !types.Equals(gotType.Args[0], types.String) {c.errors.Add(n.Args.(*ast.ExprList).Children[0].Pos(), fmt.Sprintf(\"Expecting a String for argument 1 of tolower(), not %v.\", gotType.Args[0])); n.SetType(types.Error); return n}}}; return n" ∧
